@@ -173,7 +173,7 @@ CHECKS["C06"] = dict(
           "(through the add-only hook verif_reconcile_fragments, compiled natively against the DOM shims) on ~12k (quick) / ~125k (thorough) cases incl. random sequences of length 5-40 biased to each branch; "
           "part 2 drives the real Keyed / Indexed components through chains of 2-4 list updates (all chains of 3 lists over 3 keys in thorough) on the in-process DOM: region = fresh render of the new list, "
           "retained items (same key / same position and value) and outside nodes keep their DOM node."),
-    note=DTB + " The link from Keyed / Indexed (get_nodes_between + end marker) to the routine's arguments is covered by part 2, not by a theorem.", design="5.C06")
+    note=DTB + " Linked to the client model by theorem (Dom/ClientReconcile.v): for every list construct of Dom/Client.v, every write and every well-formed set of siblings, the call the real Keyed / Indexed make (old region + end marker, new top-level nodes + end marker) satisfies the routine's hypotheses and returns exactly the child list that the updated instance prescribes, touching only the region (C06c_list_reconcile, _in_parent); retained keys / positions keep the same skeleton, hence the same nodes (C06c_keyed_retained, C06c_indexed_retained).", design="5.C06")
 CHECKS["C05"] = dict(
     technique="Coq proof (faithfulness invariant of the in-place updater, identity freshness and stability; all views, states and write sequences) on an instance-tree model of the client back end + correspondence of the model with the real DomNode code on an in-process DOM (structure and surviving nodes after every write) + self-differential oracle",
     text=("Dom/Client.v models the client back end over the shared view vocabulary as an instance tree with node identities: create (fresh render), update (what one signal write does in place: dynamic text / attributes "
